@@ -299,6 +299,28 @@ def classify_pair(ln, out):
     return ks
 
 
+def name_failed_theorems(ctx):
+    """after ctx.prove failed: add to the broken-proof entry the names of the theorems whose proofs stopped checking
+    (the `theorem` enclosing every reported line), so that the replay names them"""
+    import os, re
+    for b in ctx.broken:
+        if b.get("stage") != "prove" or "theorems" in b:
+            continue
+        names = []
+        for loc in b.get("failed_at", []):
+            path, _, ln = loc.rpartition(":")
+            try:
+                src = open(os.path.join(vlib.LEAN, path)).read().split("\n")
+            except OSError:
+                continue
+            for k in range(min(int(ln), len(src)) - 1, -1, -1):
+                m = re.match(r"(?:theorem|example)\s*(\S*)", src[k])
+                if m:
+                    names.append(m.group(1) or f"example at {path}:{k + 1}")
+                    break
+        b["theorems"] = sorted(set(names))
+
+
 def replay_search(rp, shim, pc):
     """re-run one recorded request of the three searches below"""
     o = vlib.run_lines(shim, [rp["request"]], nproc=1)[0]
